@@ -36,7 +36,7 @@ theorem new_opt_hdr_src : new_opt_hdr = "dns.RR_Header{}" := by decide
 wrote a different message. -/
 theorem serverbase_dispose_cases_src : serverbase_dispose_cases = "*tcpResponseWriter,*udpResponseWriter | default" := by decide
 theorem mainmw_dispose_cond_src : mainmw_dispose_cond =
-    "err != nil | err != nil | fctx.isDebug | err != nil | fctx.filteredResponse != fctx.originalResponse" := by decide
+    "fctx.isDebug | err != nil | err != nil | fctx.isDebug | err != nil | fctx.filteredResponse != fctx.originalResponse" := by decide
 /-- The slices of a clone are the pooled struct's own arrays re-sliced to length 0 (or nil, or a fresh empty
 slice) and never the original's: the model clones an array object into storage of the pool or into fresh
 cells (`cloneObj`), which is what `Inv.liveSep` — on capacities — and `no_cap_alias` rest on. -/
@@ -140,5 +140,21 @@ is a copy of its bytes (`string(b)`), so neither the content nor the storage of 
 reaches another's. -/
 theorem humanid_buf_calls_src : humanid_buf_calls = "p.pool.Get,p.pool.Put,buf.Reset,n.result" := by decide
 theorem humanid_result_copy_src : humanid_result_copy = "string(b)" := by decide
+
+/-! ### Round 4: who releases a response, and when
+
+`ServerBase.serveDNSMsg` releases after the handler (which has written through the UDP / TCP writer) and the
+metrics listener; the DoH handler and the DoQ stream handler release after they have written the response
+themselves; the UDP writer packs into a pooled byte buffer and writes it before anything can put it back
+(`Agd.Release.serve`). -/
+theorem serve_msg_release_order_src : serve_msg_release_order = "s.serveDNSMsgInternal,s.metrics.OnRequest,s.dispose" := by decide
+theorem doh_release_order_src : doh_release_order = "h.srv.serveDNS,h.writeResponse,h.srv.disposer.Dispose" := by decide
+theorem doq_release_order_src : doq_release_order = "s.serveDNSMsg,packWithPrefix,stream.Write,s.disposer.Dispose" := by decide
+theorem udp_writer_order_src : udp_writer_order = "normalize,r.respPool.Put,resp.PackBuffer,netext.WriteToSession" := by decide
+/-- The class of a debug question: rewritten in the request itself, restored when the handler returns (the
+`fix:` commit); the server's SERVFAIL is built from the request (`Agd.Release.handle`, `answeredClass`). -/
+theorem debug_class_rewrite_src : debug_class_rewrite = "dns.ClassINET" := by decide
+theorem debug_class_restore_src : debug_class_restore = "dns.ClassCHAOS" := by decide
+theorem error_response_from_request_src : error_response_from_request = "req, dns.RcodeServerFailure" := by decide
 
 end Agd.Tie.C07
